@@ -422,7 +422,9 @@ def tomography_family(quick):
     every qubit) -> Measure.  The 3^n closures determine the state, so a wrong phase convention in
     the export of a gate (invisible in the computational basis) shows in some closure."""
     g1 = ["H", "S", "T", "X", "Y", "Z", "S.dagger()", "T.dagger()", "Rx(0.3)", "Rz(-0.7)"]
-    g2 = ["CX", "CZ", "SWAP", "CRz(0.25)", "Controlled(Z)", "Controlled(S)", "Controlled(Rz(0.3))"]
+    g2 = ["CX", "CZ", "SWAP", "CRz(0.25)", "Controlled(Z)", "Controlled(S)", "Controlled(Rz(0.3))",
+          "CRz(-0.25)", "CRz(1.25)", "CRz(0.25).dagger()", "CRx(-0.3)", "CRx(1.3)", "CU1(-0.25)", "CU1(1.25)",
+          "CRz(0.5)", "CRx(0.5)"]
     basis = {"Z": [], "X": ["H"], "Y": ["Rz(-0.25)", "H"]}
     out = []
     q = ("qubit",)
@@ -438,6 +440,30 @@ def tomography_family(quick):
                 lay += [(("e", x), 0) for x in b0] + [(("e", x), 1) for x in b1]
                 lay += [(("e", "Measure()"), 0), (("e", "Measure()"), 1)]
                 out.append(("circuit", q + q, tuple(lay)))
+    return out
+
+
+def renaming_family():
+    """Registers renamed after side information was recorded: a live measured bit, then k qubits
+    prepared, rotated and post-selected on every bitstring (k = 1..3, in one Bra or in separate
+    ones), then one or two more bits (or a qubit) prepared to the right of the live bit, which
+    shifts the indices of the post-selected bits."""
+    E = lambda x: ("e", x)  # noqa
+    out = []
+    for k in (1, 2, 3):
+        for bras in itertools.product((0, 1), repeat=k):
+            for split in ((False, True) if k > 1 else (False,)):
+                for tail in (("Bits(0)",), ("Bits(1)",), ("Bits(1)", "Bits(0)"), ("Ket(1)", "Bits(0)")):
+                    lay = [(E("Ket(0)"), 0), (E("Rx(0.3)"), 0), (E("Measure()"), 0),
+                           (E("Ket(%s)" % ", ".join("0" * k)), 1)]
+                    lay += [(E("Rx(%r)" % (0.2 + 0.1 * i)), 1 + i) for i in range(k)]
+                    if split:
+                        lay += [(E("Bra(%d)" % b), 1) for b in bras]
+                    else:
+                        lay += [(E("Bra(%s)" % ", ".join(map(str, bras))), 1)]
+                    for t in tail:
+                        lay.append((E(t), 1))
+                    out.append(("circuit", (), tuple(lay)))
     return out
 
 
@@ -465,7 +491,9 @@ def run(ctx):
     ]
     tomo = tomography_family(ctx.quick)
     ctx.note("tomography_family", "%d closed circuits (gate sequences x measurement bases)" % len(tomo))
-    items = [("export", dict(recipe=r)) for r in witnesses + uni + fam + tomo]
+    ren = renaming_family()
+    ctx.note("renaming_family", "%d circuits that prepare bits after post-selections were recorded" % len(ren))
+    items = [("export", dict(recipe=r)) for r in witnesses + uni + fam + tomo + ren]
     # batches: ordered pairs / triples of small circuits with different scalars and post-selections
     k = build.kit("circuit")
     small = [("circuit", (), ((("e", e1), 0), (("e", e2), o))) for e1, e2, o in (
@@ -508,6 +536,15 @@ def run(ctx):
                         add(nq, nb, (("H", [q], []), a))
                     add(nq, nb, (("X", [a[1][0]], []), a, ("Measure", [a[1][1], 0], [])))
                     add(nq, nb, (("H", [a[1][0]], []), a, ("H", [a[1][1]], []), ("Measure", [a[1][1], 0], [])))
+        if (nq, nb) == (2, 2):
+            # rotation angles over several periods (tket counts half turns; CRz has period 4),
+            # observed through interference: H before and after on both qubits
+            for name, nargs in (("Rx", 1), ("Rz", 1), ("CRz", 2)):
+                for ang in (-3.5, -2.5, -1.4, -0.5, 0.5, 1.3, 2.0, 2.5, 3.3, 4.5):
+                    for args in ([[0], [1]] if nargs == 1 else [[0, 1], [1, 0]]):
+                        hs = [("H", [0], []), ("H", [1], [])]
+                        add(nq, nb, tuple(hs + [(name, args, [ang])] + hs + [("Measure", [0, 0], []), ("Measure", [1, 1], [])]))
+                        add(nq, nb, tuple(hs + [(name, args, [ang])] + hs))
         if not ctx.quick and nq <= 2:
             for seq in itertools.product(cmds, repeat=3):
                 if hash_mod(seq, 5) == 0:
